@@ -11,7 +11,7 @@
 
    Domain swept (finite, enumerated in C13/Model.v): 4 option vectors
    (ZeroCopy x InternString) x 3 transports (bytes, unbuffered io, buffered io)
-   x 5 formats x 34 driver operations (10 kinds x 5 length classes) x 10 flows;
+   x 5 formats x 34 driver operations (10 kinds x 5 length classes) x 11 flows;
    the consumer lemma additionally covers all 150 (region, attach state, length
    class) views, truthful or not.  [kept o t r]: r is the region of a kept
    string / []byte leaf, i.e. keep o t f b for a driver-produced view b and a
@@ -34,7 +34,7 @@ Theorem C13_owned_fresh : forall o t fm p f b,
   zerocopy o = false -> produce o t fm p = Some b -> att_flow f = true ->
   keep o t f b = Fresh
   \/ (keep o t f b = Table /\
-      ((intern o = true /\ (f = FString true \/ f = FMapKeyStr)) \/ (exists l, p = PSymDef l \/ p = PSymRef l)))
+      ((intern o = true /\ (f = FString true \/ f = FMapKeyStr \/ f = FIfaceBytesKey)) \/ (exists l, p = PSymDef l \/ p = PSymRef l)))
   \/ (keep o t f b = Static /\ (len_is0 (len b) = true \/ p = PJsonLit)).
 Proof. exact fresh_lemma. Qed.
 Print Assumptions C13_owned_fresh.
